@@ -189,14 +189,46 @@ def parseCell (tc : Node) : Cell :=
   { text := joinWith [10] texts, colSpan := spanOf (tc.attr sColsSpanned), rowSpan := spanOf (tc.attr sRowsSpanned),
     covered := false }
 
+/-- local names of the grouping elements `tableXML.UnmarshalXML` descends into:
+table-header-rows, table-rows, table-row-group, table-columns, table-header-columns,
+table-column-group -/
+def tableGroups : List Str :=
+  [[116, 97, 98, 108, 101, 45, 104, 101, 97, 100, 101, 114, 45, 114, 111, 119, 115],
+   [116, 97, 98, 108, 101, 45, 114, 111, 119, 115],
+   [116, 97, 98, 108, 101, 45, 114, 111, 119, 45, 103, 114, 111, 117, 112],
+   [116, 97, 98, 108, 101, 45, 99, 111, 108, 117, 109, 110, 115],
+   [116, 97, 98, 108, 101, 45, 104, 101, 97, 100, 101, 114, 45, 99, 111, 108, 117, 109, 110, 115],
+   [116, 97, 98, 108, 101, 45, 99, 111, 108, 117, 109, 110, 45, 103, 114, 111, 117, 112]]
+
+mutual
+/-- `tableXML.UnmarshalXML`: the `table:table-column` and `table:table-row` elements a
+child of the table contributes, in document order: itself if it is one, those inside it
+if it is a grouping element (`depth++`), nothing otherwise (`d.Skip()`) -/
+def tableItemsNode : Node → List Node
+  | .text _ => []
+  | .elem tag attrs kids =>
+    if localName tag == sTableColumn || localName tag == sTableRow then [.elem tag attrs kids]
+    else if tableGroups.contains (localName tag) then tableItemsList kids
+    else []
+def tableItemsList : List Node → List Node
+  | [] => []
+  | n :: rest => tableItemsNode n ++ tableItemsList rest
+end
+
+/-- `tableXML.Columns`: the column elements of the table, grouped or not, in document order -/
+def tableColumns (tbl : Node) : List Node := (tableItemsList tbl.kids).filter (·.named sTableColumn)
+
+/-- `tableXML.Rows`: the row elements of the table, grouped or not, in document order -/
+def tableRows (tbl : Node) : List Node := (tableItemsList tbl.kids).filter (·.named sTableRow)
+
 /-- `parseTableColumns`: one width per column, a `table:table-column` standing for
 `number-columns-repeated` columns when that is in `1..maxCellSpan`, for one otherwise; the
 result is `len(ParsedTable.ColWidths)`, which sizes the document-model table -/
 def columnCount (tbl : Node) : Nat :=
-  ((childrenNamed tbl.kids sTableColumn).map fun col => boundedSpan (col.attr sColsRepeated)).sum
+  ((tableColumns tbl).map fun col => boundedSpan (col.attr sColsRepeated)).sum
 
 def parseRows (tbl : Node) : List (List Cell) :=
-  (childrenNamed tbl.kids sTableRow).map fun tr => (childrenNamed tr.kids sTableCell).map parseCell
+  (tableRows tbl).map fun tr => (childrenNamed tr.kids sTableCell).map parseCell
 
 def colCount (rows : List (List Cell)) : Nat :=
   rows.foldl (fun m row => max m (row.foldl (fun s c => s + c.colSpan) 0)) 0
